@@ -103,6 +103,80 @@ def check_pairs(rep):
     return bad
 
 
+def check_parameter_properties(rep, cross):
+    """Compiler::compile_constructor_body with one parameter `x` (any accessibility / readonly flags) and a one-statement body: the store
+    `this.x = x` is emitted iff the parameter is a parameter property (an accessibility modifier or `readonly`), and BEFORE the first
+    statement of the body is compiled - the TypeScript emit puts the assignments first"""
+    ex = common.executor(unwind=3)
+    astb.install_rc_models(ex)
+    astb.BuilderStub(ex)
+    ex.auto_havoc = True
+    ex.havoc(r'^Compiler::new$', ret=lambda e, s, c: Agg('struct', 'Compiler', {}, lazy=True, nm='$nested'))
+    try:
+        fn = common.fn_name(ex, 'Compiler', 'compile_constructor_body')
+    except driver.Inconclusive as err:
+        rep.inconc(str(err))
+        return
+    f = ex.mir.get(fn)
+    st = State()
+    ab = astb.AB(ex, st)
+    acc = z3.BitVec('has_accessibility', 64)
+    st.assume(z3.ULT(acc, 2))
+    ro = z3.Bool('is_readonly')
+    param = ab.struct('FunctionParam', pattern=ab.enum('Pattern', 'Identifier', ab.ident('x')), accessibility=EnumV('Option<Accessibility>', acc, {}, lazy=True),
+                      readonly=Bool(ro), decorators=VecV((), 'Decorator'), optional=Bool(z3.BoolVal(False)))
+    stmt = EnumV('Statement', z3.BitVec('stmt_kind', 64), {}, lazy=True, nm='$stmt')
+    st.assume(z3.ULT(z3.BitVec('stmt_kind', 64), len(ex.enum_variants('Statement'))))
+    body = ab.struct('BlockStatement', body=VecV((stmt,), 'Statement'))
+    ctor = ab.struct('ClassConstructor', params=VecV((param,), 'FunctionParam'), body=body)
+    comp = st.alloc(Agg('struct', 'Compiler', {}, lazy=True))
+    args = [Ref(comp), ab.ref(ctor)]
+    for i, (a_, t) in enumerate(f.args[2:], 2):
+        if t.startswith('&[') or t.startswith('&mut ['):
+            args.append(Ref(st.alloc(VecV((), None))))
+        else:
+            args.append(ex.fresh(st, t, '$a%d' % i))
+    ex.call_function(st, fn, args)
+    try:
+        ends = ex.run(st, max_paths=6000)
+    except Exception as err:
+        rep.inconc('compile_constructor_body: %s' % str(err)[:140])
+        return
+    sp = ex.variant_index('Op', 'SetPropertyConst')
+    n = 0
+    bad = None
+    for e in ends:
+        if e.status in ('bound', 'panic'):
+            continue
+        if e.status != 'return':
+            rep.inconc('compile_constructor_body: %s %s' % (e.status, e.detail[:140]))
+            continue
+        if not (isinstance(e.value, EnumV) and e.value.discr == 0):
+            continue
+        n += 1
+        evs = e.st.events
+        first_stmt = next((i for i, x in enumerate(evs) if x[0] == 'call' and str(x[1]).endswith('compile_statement_impl')), None)
+        stores = [i for i, x in enumerate(evs) if x[0] == 'emit' and isinstance(x[1], EnumV) and x[1].discr == sp]
+        is_prop = z3.Or(acc == 1, ro)
+        before = [i for i in stores if first_stmt is None or i < first_stmt]
+        g = z3.And(z3.Implies(is_prop, z3.BoolVal(len(before) >= 1)), z3.Implies(z3.Not(is_prop), z3.BoolVal(len(stores) == 0)))
+        r, m = ex.check_sat_pc(e.st.pc, [z3.Not(g)])
+        if r == 'sat' and bad is None:
+            bad = (len(stores), len(before), first_stmt is not None)
+        elif r == 'unsat':
+            cross.append(('compile_constructor_body parameter property store', list(e.st.pc) + [z3.Not(g)], 'unsat'))
+    what = 'compile_constructor_body: `this.x = x` is emitted iff x is a parameter property, before the first body statement'
+    rep.obligation(what, 'sat' if bad else 'unsat', '%d Ok paths; one parameter, one body statement of any kind' % n, 0.0)
+    if bad and not rep.seen('C04/compile_constructor_body/parameter-property-store'):
+        p = rep.write_replay('param-prop', {'stores': bad[0], 'stores_before_body': bad[1], 'body_compiled': bad[2]})
+        rep.violation('C04/compile_constructor_body/parameter-property-store', 'compile_constructor_body has a path with %d parameter-property stores, %d of them before the body (symbolic counterexample; see the emit pairs for a program)' % (bad[0], bad[1]), p)
+    if n == 0:
+        rep.inconc('compile_constructor_body: no Ok path (vacuity)')
+    rep.vacuity.append('compile_constructor_body: %d Ok paths' % n)
+    rep.sample({'kernel': 'compile_constructor_body parameter properties', 'ok_paths': n})
+    rep.absorb(ex)
+
+
 def run(rep):
     rep.bounds = dict(members='2 (thorough: also 3)', initializer='any f64 literal / negated literal / none', loops='member loop unrolled for 2 members')
     rep.assumptions = [
@@ -192,6 +266,7 @@ def run(rep):
         rep.vacuity.append('compile_enum_declaration [%s]: %d paths' % (shape, len(ends)))
         rep.sample({'kernel': 'compile_enum_declaration', 'shape': shape, 'paths': len(ends)})
         rep.absorb(ex)
+    check_parameter_properties(rep, cross)
     pair_bad = check_pairs(rep)
     if pair_bad and not rep.seen('C04/emit-pair'):
         nme, ts, js, a, b = pair_bad[0]
